@@ -23,20 +23,27 @@ let parse_trace w =
 let miss = ref false
 let flagbad = ref false
 
-let mk_raw trace =
+(* the matcher the model is run with is the EXTRACTED raw_of over the recorded answers (the one the
+   theorem C18_permutation_checked speaks about); the wrapper only notes a call that was not
+   recorded and a difference in the RE_NOT* flags *)
+let mk_tr trace =
+  List.map (fun (b, e, ctx, _, found, subs) ->
+    (((ni b, ni e), zi ctx), (if found < 0 then None else Some (ni found, List.map zi subs)))) trace
+
+let mk_raw trace tr =
   fun b e ctx flg ->
-    let b = inat b and e = inat e and ctx = iz ctx and flg = iz flg in
-    match List.find_opt (fun (b', e', c', _, _, _) -> b = b' && e = e' && c' = ctx) trace with
-    | None -> miss := true; None
-    | Some (_, _, _, flg', found, subs) ->
-      if flg' <> flg then flagbad := true;
-      if found < 0 then None else Some (ni found, List.map zi subs)
+    let b' = inat b and e' = inat e and ctx' = iz ctx and flg' = iz flg in
+    (match List.find_opt (fun (b0, e0, c0, _, _, _) -> b' = b0 && e' = e0 && c0 = ctx') trace with
+     | None -> miss := true
+     | Some (_, _, _, flg0, _, _) -> if flg0 <> flg' then flagbad := true);
+    raw_of tr b e ctx flg
 
 let do_ren full hex order td lim ctxf tracew =
   let s = bytes_of_hex hex in
   let trace = parse_trace tracew in
   miss := false; flagbad := false;
-  let raw = mk_raw trace in
+  let tr = mk_tr trace in
+  let raw = mk_raw trace tr in
   let xtd = zi td and cf = zi ctxf in
   let dr = dr_of xtd cf raw in
   let o = { xorder = zi order; xlim = zi lim } in
@@ -45,13 +52,13 @@ let do_ren full hex order td lim ctxf tracew =
   let dctx = dir_context s xtd cf in
   pr " dctx=%d dm=" (iz dctx);
   if trace = [] then pr "-";
-  let bad = ref false in
+  (* the hypothesis of the C18 theorems (cm_ok), decided by the extracted matcher_ok on this case *)
+  let bad = not (matcher_ok s tr) in
   List.iter (fun (b, e, ctx, _, _, _) ->
     match dir_match s chrs raw (ni b) (ni e) (zi ctx) with
     | None -> pr "x;"
     | Some m ->
       let rb = inat m.r_beg and re = inat m.r_end and cb = inat m.c_beg and ce = inat m.c_end in
-      if re <= b || re > e || rb < b || cb < rb || ce > re then bad := true;
       pr "%d,%d,%d,%d,%d,%d;" rb re cb ce (iz m.c_dir) (if m.c_rec then 1 else 0)) trace;
   let ident = List.init n (fun i -> ni i) in
   pr " ord=";
@@ -83,7 +90,7 @@ let do_ren full hex order td lim ctxf tracew =
   end;
   if !miss then pr " ORACLE-MISS";
   if !flagbad then pr " FLAG-MISMATCH";
-  if !bad then pr " BADSPAN";
+  if bad then pr " MATCHER-NOT-OK";
   pr "\n"
 
 let shres = function ShNone -> "x" | ShFuel -> "FUEL" | ShOut b -> hex_of_bytes b
